@@ -412,6 +412,23 @@ def race_reports(ctx):
     return sigs
 
 
+def closerace_jobs(ctx, nshards, nhist):
+    """A Close / a compaction started at the moment a reader is inside its critical section reading a value of several
+    MiB, on a file system whose windows become inaccessible when the file is closed (as fs.OSMMap's do)."""
+    jobs, outs = [], []
+    for i in range(nshards):
+        out = ctx.path("rec-closerace-%d.ndjson" % i)
+        outs.append(out)
+        jobs.append(["closerace", "-n", str(nhist), "-seed", str(ctx.seed * 7919 + i * 104729 + 1), "-out", out])
+    stats = []
+    import concurrent.futures
+    with concurrent.futures.ThreadPoolExecutor(max_workers=4) as ex:
+        stats = list(ex.map(lambda a: ctx.vrun(a, allow_crash=True), jobs))
+    add_stats(ctx, stats, "closerace")
+    ctx.crashes = getattr(ctx, "crashes", []) + [(jobs[i], st["crash"]) for i, st in enumerate(stats) if st.get("crash")]
+    return [o for i, o in enumerate(outs) if not stats[i].get("crash")]
+
+
 def c10(ctx):
     q = ctx.quick()
     # design level: the lock discipline (DB.mu, maintenanceMu, iterator mutex, closeWg) has no deadlock and terminates;
@@ -422,6 +439,7 @@ def c10(ctx):
     outs += stress_jobs(ctx, "close-race", 4, 20 if q else 200, 10, 3, ALLFS, ["-maint", "-closemid"], workers=3)
     outs += stress_jobs(ctx, "race-grow", 4, 2 if q else 30, 120, 800, ("osmmap", "mem", "os", "osmmap"), ["-maint", "-grow"], race=True, workers=3)
     outs += stress_jobs(ctx, "close-vs-held-worker", 4, 6 if q else 60, 10, 3, ALLFS, ["-maint", "-holdbg"], workers=2)
+    outs += closerace_jobs(ctx, 4, 6 if q else 60)
     races = race_reports(ctx)
     extra = ctx.path("rec-race-events.ndjson")
     with open(extra, "w") as f:
@@ -451,7 +469,7 @@ def c10(ctx):
     ctx.report_rejections(rejs, describe)
     h = ctx.cov["harness"]
     ctx.cov["evaluations"] = ctx.cov["events"]
-    ctx.cov["distinct_nontrivial"] = sum(h[k].get("histories", 0) for k in ("race-stress", "close-race", "race-grow", "close-vs-held-worker"))
+    ctx.cov["distinct_nontrivial"] = sum(h[k].get("histories", 0) for k in ("race-stress", "close-race", "race-grow", "close-vs-held-worker", "closerace"))
     ctx.assumptions += ["data races and memory faults are not expressible in TLA+: they are observed by the Go race detector / SetPanicOnFault on these schedules and enter the recording as events no Layer-A action accepts; completeness is that of the schedules run"]
     return ctx.finish("model_checking", "free-running histories built with -race: workers + maintenance goroutine (Compact, Sync, Backup, scans, FileSize, Metrics) + background workers, Close fired at a random point of half of the histories; "
                       "panics -> fault events, 60 s without progress -> stuck event with goroutine dump, goroutines inside pogreb after Close returned -> leak event, race-detector reports -> race events; "
@@ -600,7 +618,12 @@ def c15(ctx):
 def c14(ctx):
     q = ctx.quick()
     outs = seq_jobs(ctx, "held-slices", 12, 3 if q else 30, 220, 40, ("osmmap", "osmmap", "os", "mem", "osmmap", "crashfs"), ["-hold", "-inject", "-scans"])
-    rejs = ctx.validate(outs)
+    # what Get / GetAppend / Next hand out must have been copied before the lock was released: a Close or a compaction
+    # started at that very moment makes the file's memory inaccessible
+    outs += closerace_jobs(ctx, 2, 6 if q else 60)
+    if getattr(ctx, "crashes", []):
+        raise Inconclusive("the close-race driver died:\n" + ctx.crashes[0][1][:1500])
+    rejs = ctx.validate(outs, dfs=True)
     ctx.sample_from(outs[0], 1)
     ctx.report_rejections(rejs, describe_generic)
     h = ctx.cov["harness"]["held-slices"]
